@@ -2462,6 +2462,6 @@ pub fn run(ctx: &mut Ctx) {
     }
     let (fc, fq) = (ctx.budget(6, 80), ctx.budget(25, 40) as usize);
     check_fast_range_kinds(ctx, fc, fq);
-    let mc = ctx.budget(60, 1500);
+    let mc = ctx.budget(60, 400);
     check_json_mixed_column_types(ctx, mc);
 }
